@@ -252,6 +252,11 @@ int main(int argc, char** argv) {
         SU_vector r = iCommutator(a, b);
         expect_vec("iCommutator", r, R, SA * SB);
         SU_vector r2(d); r2 = iCommutator(a, b); expect_same("assign(iCommutator)", r2, r, 0);
+        for (int e2 : {-60, 200}) {   // exact homogeneity under power-of-two scaling (tiny and huge operands)
+          double sc = std::ldexp(1.0, e2);
+          SU_vector as = a * sc, bs = b * sc, rs = iCommutator(as, bs), es = r * (sc * sc);
+          expect_same(std::string("iCommutator scaled by 2^") + std::to_string(e2), rs, es, 0);
+        }
         { // the result may be stored over an operand (same object, or another vector viewing the same user buffer)
           SU_vector x = a; x = iCommutator(x, b); expect_same("a=iCommutator(a,b)", x, r, 0);
           SU_vector y = b; y = iCommutator(a, y); expect_same("b=iCommutator(a,b)", y, r, 0);
@@ -264,6 +269,11 @@ int main(int argc, char** argv) {
         SU_vector r = ACommutator(a, b);
         expect_vec("ACommutator", r, R, SA * SB);
         SU_vector r2(d); r2 = ACommutator(a, b); expect_same("assign(ACommutator)", r2, r, 0);
+        for (int e2 : {-60, 200}) {
+          double sc = std::ldexp(1.0, e2);
+          SU_vector as = a * sc, bs = b * sc, rs = ACommutator(as, bs), es = r * (sc * sc);
+          expect_same(std::string("ACommutator scaled by 2^") + std::to_string(e2), rs, es, 0);
+        }
         { SU_vector x = a; x = ACommutator(x, b); expect_same("a=ACommutator(a,b)", x, r, 0);
           SU_vector y = b; y = ACommutator(a, y); expect_same("b=ACommutator(a,b)", y, r, 0);
           alignas(32) double buf[40]; for (int k = 0; k < d * d; k++) buf[k] = a[k];
@@ -273,6 +283,13 @@ int main(int argc, char** argv) {
         double S = SA * SB * d, tol = TOLF * EPS * (S > 0 ? S : 1);
         if (!(std::fabs(t1 - sexp.real()) <= tol)) mismatch("a*b", std::fabs(t1 - sexp.real()), tol);
         if (t1 != t2) mismatch("SUTrace!=operator*", std::fabs(t1 - t2), 0);
+        // rounding is proportional to |A||B|: scaling both operands by powers of two scales the result exactly
+        for (int e2 : {-60, 200}) {
+          double sc = std::ldexp(1.0, e2);
+          SU_vector as = a * sc, bs = b * sc;
+          double ts = as * bs;
+          if (ts != t1 * sc * sc) { mismatch(std::string("a*b scaled by 2^") + std::to_string(e2), std::fabs(ts - t1 * sc * sc), 0); break; }
+        }
         if (S > 0 && std::fabs(t1 - sexp.real()) / S > maxrel) maxrel = std::fabs(t1 - sexp.real()) / S;
       } else if (op == "evolve") {
         Mat Hm(d); long hmax = 0, hmin = 0;
